@@ -297,12 +297,18 @@ impl StructureScanConfig {
 
     /// Check if a path should be excluded from scanning entirely.
     pub(crate) fn is_scanner_excluded(&self, path: &Path, is_dir: bool) -> bool {
+        // The project root has no name inside the project: an exclude pattern cannot refer to it,
+        // however the scan root is spelled (`.` has no file name at all, the absolute spelling
+        // ends in the name of the project directory itself)
+        let normalized = normalize_for_matching(path);
+        if normalized.as_os_str().is_empty() {
+            return false;
+        }
+
         let file_name = path.file_name().unwrap_or_default();
         let file_name_str = file_name.to_string_lossy();
 
-        if self.scanner_exclude.is_match(file_name)
-            || self.scanner_exclude.is_match(normalize_for_matching(path))
-        {
+        if self.scanner_exclude.is_match(file_name) || self.scanner_exclude.is_match(normalized) {
             return true;
         }
 
